@@ -59,6 +59,12 @@ def run(tier, seed, replay):
             cases = [dict(c, id=0)]
         else:
             progs = [(s, jqgen.V("abcab")) for s in REGEX] + [(s, r.choice(inputs)) for s in LITERALS] + [(s, shared_input) for s in SHAREDIN]
+            # objects / arrays merged into leading empty ones, mutable scalars (*big.Int) reachable from the shared input or from constants
+            big = -(2 ** 72)
+            sh2 = jqgen.V([{}, {"a": 1}, {"b": 2}, {"c": 3}, [], [1], big, {"n": big}])
+            progs += [(s, sh2) for s in ("[.[0:4][]] | add", ".[1]", "map(length?)", "[.[] | objects] | add | length", ".[0:4] | add", "[{}, .[1], .[2]] | add", "[.[4], .[5], .[5]] | add", ".[6] | abs", ".[7].n | abs, -(.)",
+                                         "[.[6], .[7].n] | map(abs) | add", "[.. | numbers | abs] | length", "[{}, {a: 1}, {b: 2}] | (.[1] | length), (add | length)", "%d | abs, ." % big, "[.[] | objects] | add, add",
+                                         "reduce (.[] | objects) as $o ({}; . + $o)", ".[6] | ., abs, (. - 1 | abs)", "[.[6], .[6]] | unique | map(abs)")]
             cor = evalfam.corpus_cases(work, vh)
             for c in r.sample(cor, 60 if quick else len(cor)):
                 progs.append((c["src"], c["inputs"][0]))
